@@ -221,8 +221,18 @@ def token_path(lm, methods, lexer, lexdata='/ x'):
     return calls[0]
 
 
-def feed(ev, methods, lexer, types):
+REGEX_READ = 'REGEX/'
+
+
+def feed(ev, methods, lexer, types, lm=None):
     for t in types:
+        if t == REGEX_READ:
+            # a regular expression literal as the lexer itself reads it:
+            # Lexer._token on a `/`, deciding for the regex state (these
+            # tokens do not pass through _get_update_token)
+            if token_path(lm, methods, lexer) != 're':
+                raise Raised('the context does not read a regex here')
+            continue
         new = tok(*t) if isinstance(t, tuple) else tok(t)
         lexer.get_lexer_token = ('pyfunc', lambda new=new, lexer=lexer:
                                  hand(lexer, new))
@@ -283,6 +293,19 @@ def r053(report, g, lm, only_div, only_re, headers, tier='quick'):
         contexts.append((('LPAREN',) + fn + (
             k, 'LPAREN', 'ID', 'RPAREN', 'ID', 'LPAREN', 'RPAREN'), 'div',
             '(function(){ %s (a) f()' % k.lower()))
+    # a `/` after a regular expression literal divides, wherever the
+    # literal stands (the literal is read by the lexer's own regex path)
+    for pre, label in (((), '/re/'), (('ID', 'EQ'), 'a = /re/'),
+                       (('LBRACKET',), '[/re/'), (('RETURN',), 'return /re/'),
+                       (('ID', 'LPAREN'), 'f(/re/'),
+                       (('NOT',), '!/re/')):
+        contexts.append((pre + (REGEX_READ,), 'div', label))
+    for k in sorted(headers):
+        contexts.append(((k, 'LPAREN', 'ID', 'RPAREN', REGEX_READ), 'div',
+                         '%s (a) /re/' % k.lower()))
+        contexts.append(((k, 'LPAREN', 'ID', 'RPAREN', REGEX_READ, 'DIV',
+                          REGEX_READ), 'div', '%s (a) /re/ / /re/'
+                         % k.lower()))
     runs = list(MARKER_RUNS)
     if tier == 'thorough':
         import itertools as _it
@@ -313,7 +336,7 @@ def r053(report, g, lm, only_div, only_re, headers, tier='quick'):
                 lexer = mk_lexer_obj(lm=lm)
                 seq = list(ctx[:at]) + list(run) + list(ctx[at:])
                 try:
-                    feed(ev, methods, lexer, seq)
+                    feed(ev, methods, lexer, seq, lm)
                     got = token_path(lm, methods, lexer)
                 except Raised as e:
                     got = 'raised %s' % e.text[:40]
